@@ -27,9 +27,23 @@ def _array(interp, args, kwargs, node):
     return vecn(as_vec(interp, args[0], node))
 
 
+def _scalar(v):
+    """numpy scalars behave as the real number they hold"""
+    return VReal(v.z) if v.kind == "opaque" and v.tag == "npfloat" else v
+
+
+def _compare(interp, args, kwargs, node):
+    a, b = _scalar(args[0]), _scalar(args[1])
+    if a.kind == "opaque" or b.kind == "opaque":
+        raise EngineError("comparison of arrays")
+    return interp.compare(kwargs["op"], a, b, node)
+
+
 def _binop(interp, args, kwargs, node):
     a, b = args
     op = kwargs["op"]
+    if (a.kind == "opaque" and a.tag == "npfloat") or (b.kind == "opaque" and b.tag == "npfloat"):
+        return interp.binop(op, _scalar(a), _scalar(b), node)
     xs, ys = as_vec(interp, a, node), as_vec(interp, b, node)
     if len(xs) != len(ys):
         raise EngineError("vector lengths differ")
@@ -66,7 +80,8 @@ def _len(interp, o, node):
 
 HANDLERS = {
     "numpy.array": (_array, "np.array(sequence of numbers) is that vector"),
-    "opaque.binop": (_binop, "vectors add / subtract elementwise"),
+    "opaque.binop": (_binop, "vectors add / subtract elementwise; numpy scalars compute as reals"),
+    "opaque.compare": (_compare, "numpy scalars compare as reals"),
     "numpy.linalg.norm": (_norm, "np.linalg.norm(v, ord=2) is the non-negative root of the sum of squares"),
     "npfloat.item": (_item, ".item() of a numpy scalar is its value"),
     "numpy.item": (_item, "float(numpy scalar) is its value"),
